@@ -175,7 +175,7 @@ func runC03(c *Ctx) {
 		var detail string
 		for _, in := range find(fn, isExit) {
 			r := in.(*ssa.Return)
-			v := r.Results[0]
+			v := ir.RetVal(r, 0)
 			if b, isC := ir.ConstBool(v); isC {
 				if b {
 					mayTrue = append(mayTrue, in)
